@@ -78,6 +78,7 @@ def _install_probes(mods):
     counters = collections.Counter()
     mods['probes'] = counters
     avail = []
+    mods['probes_avail'] = avail
 
     def wrap(cls, name):
         orig = cls.__dict__.get(name)
@@ -331,12 +332,20 @@ class World:
         # after a stall of s seconds the pool may tick - and feed connection-less blocks - only every
         # cmax + s seconds until faster connects have diluted the average.  Both windows are therefore
         # expressed in ticks of that worst-case length, not of the nominal 10 ms.
+        # A run whose pool ticks at the nominal pace is judged after the nominal windows (as before, and
+        # cheaply: a starving run costs ~200 ticks); only while fewer than the expected number of ticks have
+        # actually been executed does the judgement wait - at most until the worst-case windows are over.
         stall_total = sum(arg for kind, _, arg in ops if kind == 'stall')
-        tick = max(self.cmax, c['min_conn_time']) + stall_total
+        tick0 = max(self.cmax, c['min_conn_time'])
+        tick = tick0 + stall_total
+        self.bound_nominal = 3 * c['gc'] + 200 * tick0 + 50 * (self.hmax + self.cmax + self.dmax) + 5.0
         self.bound = 3 * c['gc'] + 200 * tick + 50 * (self.hmax + self.cmax + self.dmax) + 5.0
         self.q_since = None
+        self.q_ticks = 0
         self.abandon = False
+        self.report_window_nominal = 2 * self.cmax + 20 * tick0 + 0.2
         self.report_window = 2 * self.cmax + 20 * tick + 0.2
+        self.tick_probe = 'Pool._tick' in self.mods.get('probes_avail', ())
 
         loop.after_step = self.after_step
         tasks = self.client_tasks = []
@@ -461,8 +470,10 @@ class World:
                         if n == c['retries'] + 1 or (fail == '3D000' and n <= c['retries'] + 1):
                             owed.append(i)
                 if owed:
-                    loop.call_later(self.report_window, self.check_reported, dbname, owed,
-                                    [self.acq_serial[i] for i in owed], loop.time(), loop.iterations)
+                    loop.call_later(self.report_window_nominal if self.tick_probe else self.report_window,
+                                    self.check_reported, dbname, owed,
+                                    [self.acq_serial[i] for i in owed], loop.time(), loop.iterations,
+                                    self.ticks_run())
             raise e
         self.fail_streak[dbname] = 0
         if self.acq_fails:
@@ -474,7 +485,10 @@ class World:
         self.ev('connect_done', dbi)
         return conn
 
-    def check_reported(self, dbname, owed, serials, t_fail, it_fail):
+    def ticks_run(self):
+        return self.mods['probes'].get('_tick', 0)
+
+    def check_reported(self, dbname, owed, serials, t_fail, it_fail, ticks_fail=0):
         """L4: at t_fail the listed acquires had each, since they started
         waiting, seen more consecutive connect failures on their database
         than the retry budget (and no success): by now (a window of simulated
@@ -484,13 +498,20 @@ class World:
                  if i in self.pending_acq and self.acq_serial.get(i) == sn]
         if still and self.loop.iterations - it_fail < 60:
             self.loop.call_later(self.cfg['min_conn_time'], self.check_reported,
-                                 dbname, owed, serials, t_fail, it_fail)
+                                 dbname, owed, serials, t_fail, it_fail, ticks_fail)
+            return
+        if (still and self.tick_probe and self.ticks_run() - ticks_fail < 20
+                and self.loop.time() - t_fail < self.report_window):
+            # the pool has not had its 20 ticks yet (its tick period follows the measured connect time,
+            # which a stalled process inflates): wait, at most until the worst-case window is over
+            self.loop.call_later(max(self.cfg['min_conn_time'], self.cmax), self.check_reported,
+                                 dbname, owed, serials, t_fail, it_fail, ticks_fail)
             return
         if still:
             self.violate('C16', 'L4', 'exhausted-retries-not-reported',
                          f'connect to {dbname!r} failed beyond the retry budget at vtime={t_fail:.3f}, '
                          f'but {len(still)} acquire(s) waiting on it then are still blocked '
-                         f'{self.report_window:.2f}s later; blocks={self.describe_blocks()}')
+                         f'{self.loop.time() - t_fail:.2f}s ({self.ticks_run() - ticks_fail} ticks) later; blocks={self.describe_blocks()}')
 
     @staticmethod
     def _resolve(fut):
@@ -730,10 +751,12 @@ class World:
         now = self.loop.time()
         if self.q_since is None:
             self.q_since = now
+            self.q_ticks = self.ticks_run()
             self.q_served = self.served + self.errored
             return
         if self.served + self.errored != self.q_served:
             self.q_since = now
+            self.q_ticks = self.ticks_run()
             self.q_served = self.served + self.errored
             return
         if not self.liveness:
@@ -741,7 +764,9 @@ class World:
             if now - self.q_since > min(self.bound, 1.2 * self.cfg['gc'] + 1.0):
                 self.abandon = True
             return
-        if now - self.q_since > self.bound:
+        elapsed = now - self.q_since
+        if elapsed > self.bound or (self.tick_probe and elapsed > self.bound_nominal
+                                    and self.ticks_run() - self.q_ticks >= 200):
             busy = self.n_connecting or self.closing or self.loop.count_unstarted()
             self.report_stuck('livelock' if busy else 'starved')
 
